@@ -96,8 +96,22 @@ pub mod logsub {
     }
 }
 
+thread_local! {
+    /// the date scenario time 0 falls on (seconds since 1970), per worker thread
+    static EPOCH_S: std::cell::Cell<u64> = const { std::cell::Cell::new(BASE_EPOCH_S) };
+}
+
+/// the date this thread's scenario runs at (`TScenario.epoch_s`; 0 = the default epoch)
+pub fn set_epoch(s: u64) {
+    EPOCH_S.with(|e| e.set(if s == 0 { BASE_EPOCH_S } else { s }));
+}
+
+pub fn epoch_s() -> u64 {
+    EPOCH_S.with(std::cell::Cell::get)
+}
+
 pub fn vt(t_ns: u64) -> SystemTime {
-    SystemTime::UNIX_EPOCH + Duration::from_secs(BASE_EPOCH_S) + Duration::from_nanos(t_ns)
+    SystemTime::UNIX_EPOCH + Duration::from_secs(epoch_s()) + Duration::from_nanos(t_ns)
 }
 
 type Addr = [u8; 3];
@@ -293,6 +307,10 @@ pub fn execute(sc: &TScenario, mask: Mask) -> Outcome {
     } else {
         "C15"
     };
+    set_epoch(sc.epoch_s);
+    if sc.epoch_s != 0 {
+        out.fault("date_next_to_a_power_of_two_of_the_clock");
+    }
     logsub::set_level(sc.log_level);
     match sc.log_level {
         0 => {}
